@@ -533,6 +533,15 @@ func (r *Run) onEntry(kind string, key, val []byte, version uint64, meta, um byt
 
 func (r *Run) key(i int) []byte { return r.c.KeyBytes(i) }
 
+// iterPrefix: the iterator's Prefix option (a key, or its first PrefixLen bytes).
+func (r *Run) iterPrefix(it *IterSpec) []byte {
+	k := r.key(it.Prefix)
+	if it.PrefixLen > 0 && it.PrefixLen < len(k) {
+		return append([]byte{}, k[:it.PrefixLen]...)
+	}
+	return k
+}
+
 // ---------- client op execution ----------
 
 func (r *Run) clientLoop(cl *clientState) {
@@ -1113,7 +1122,7 @@ func (r *Run) expectedIter(ts *txnState, it *IterSpec, pending map[string]WriteR
 		allv = true
 		exact = true
 	} else if it.Prefix >= 0 {
-		prefix = r.key(it.Prefix)
+		prefix = r.iterPrefix(it)
 	}
 	if rewind {
 		seek = prefix
@@ -1208,7 +1217,7 @@ func (r *Run) opIter(cl *clientState, idx int, op *Op) {
 		bi = ts.txn.NewKeyIterator(r.key(it.KeyIter), opt)
 	} else {
 		if it.Prefix >= 0 {
-			opt.Prefix = r.key(it.Prefix)
+			opt.Prefix = r.iterPrefix(it)
 		}
 		bi = ts.txn.NewIterator(opt)
 	}
